@@ -242,13 +242,36 @@ fn population(rep: &mut Report, orc: &mut Oracle, rng: &mut Rng, scratch: &str, 
       // ---- cone: the harness builds the same region with the library call the tool makes
       let live: Vec<&Entry> = ents.iter().filter(|e| !e.m.r.is_empty()).collect();
       let idx = if live.is_empty() { rng.below(NCM) } else { let e = live[rng.below(live.len() as u64) as usize]; let (a, b) = e.m.r[rng.below(e.m.r.len() as u64) as usize]; if rng.chance(1, 2) { a } else { b - 1 } };
-      let (lon, lat) = cdshealpix::nested::center(29, idx);
+      // a third of the cones are centred INSIDE a stored MOC (on its first / last index); the others
+      // are centred in a neighbouring cell just OUTSIDE a stored MOC, with a radius comparable to that
+      // cell: the cone comes within a fraction of a cell of the border (touching it or not)
+      let mut near: Option<(f64, f64, f64)> = None;
+      if rng.chance(2, 3) && !live.is_empty() {
+        let dd = *rng.pick(&[12u8, 13, 14, 14, 15, 15, 16, 16, 17, 18]);
+        let c = idx >> (2 * (29 - dd as u32));
+        let neigh: Vec<u64> = cdshealpix::nested::neighbours(dd, c, false).values_vec();
+        let outside: Vec<u64> = neigh
+          .into_iter()
+          .filter(|n| {
+            let (a, b) = (n << (2 * (29 - dd as u32)), (n + 1) << (2 * (29 - dd as u32)));
+            !ents.iter().any(|e| e.m.r.iter().any(|&(s, t)| s < b && a < t))
+          })
+          .collect();
+        if !outside.is_empty() {
+          let n = outside[rng.below(outside.len() as u64) as usize];
+          let (lo, la) = cdshealpix::nested::center(dd, n);
+          let cell_arcsec = (4.0 * std::f64::consts::PI / (12.0 * 4f64.powi(dd as i32))).sqrt().to_degrees() * 3600.0;
+          let f = *rng.pick(&[0.2, 0.35, 0.45, 0.5, 0.6, 0.8]);
+          near = Some((lo, la, (cell_arcsec * f * 1000.0).round() / 1000.0));
+        }
+      }
+      let (lon, lat) = match near { Some((lo, la, _)) => (lo, la), None => cdshealpix::nested::center(29, idx) };
       let (lons, lats) = (format!("{}", lon.to_degrees()), format!("{}", lat.to_degrees()));
       let (lon2, lat2) = (lons.parse::<f64>().unwrap().to_radians(), lats.parse::<f64>().unwrap().to_radians());
       if !(0.0..2.0 * std::f64::consts::PI).contains(&lon2) || !(-0.5 * std::f64::consts::PI..0.5 * std::f64::consts::PI).contains(&lat2) {
         continue;
       }
-      let r_arcsec: f64 = *rng.pick(&[0.05, 1.0, 30.0, 600.0, 7200.0, 72000.0]);
+      let r_arcsec: f64 = match near { Some((_, _, r)) => r, None => *rng.pick(&[0.05, 1.0, 30.0, 600.0, 7200.0, 72000.0]) };
       let rs = format!("{}", r_arcsec);
       let r_rad = (rs.parse::<f64>().unwrap() / 3600.0).to_radians();
       let prec = rng.range(0, 3) as u8;
@@ -262,7 +285,7 @@ fn population(rep: &mut Report, orc: &mut Oracle, rng: &mut Rng, scratch: &str, 
       if full {
         a.push("-i".into());
       }
-      (a, None, format!("SETQ {} {} {} {} {}", if full { "c" } else { "i" }, dep as u8, ranges_str(&region.r), du, ents_wire), "cone".into())
+      (a, None, format!("SETQ {} {} {} {} {}", if full { "c" } else { "i" }, dep as u8, ranges_str(&region.r), du, ents_wire), if near.is_some() { "cone-near-border".into() } else { "cone".into() })
     } else {
       // ---- MOC region
       let region = gen_region(rng, &ents);
@@ -353,7 +376,7 @@ pub fn run(ctx: &Ctx) -> Report {
   let mut rep = Report::default();
   let mut orc = Oracle::spawn();
   let mut rng = Rng::new(ctx.seed);
-  rep.rule = "populations of 1-8 space MOCs (depth 0..29 = 32- and 64-bit storage, empty MOCs, FITS written with u16/u32/u64, valid / deprecated / removed) in a real moc-set file; queries: positions (centres of cells on the first / last index of a stored range, next to it, random), cones (region rebuilt by the harness with the tool's own library call), MOC regions made of 1-3 cells of depth 0..29 placed on / just inside / just outside / strictly inside the storage cell at the bounds of the stored ranges, in ascii / json / fits (u16, u32, u64), given as file (extension or -f) or stdin; intersect and included mode; with / without deprecated; sequential, --parallel 1..4 (set comparison), --print-coverage; `mocset union` (same selections, and ids) at depths 0..29 decoded from its FITS output. non-trivial = query with a non-empty expected answer; distinct = distinct case line".to_string();
+  rep.rule = "populations of 1-8 space MOCs (depth 0..29 = 32- and 64-bit storage, empty MOCs, FITS written with u16/u32/u64, valid / deprecated / removed) in a real moc-set file; queries: positions (centres of cells on the first / last index of a stored range, next to it, random), cones (centred on the first / last index of a stored range, or in a neighbouring cell of depth 11..18 just outside every stored MOC with a radius of 0.2-0.8 cell so that the cone comes close to a border; region rebuilt by the harness with the tool's own library call), MOC regions made of 1-3 cells of depth 0..29 placed on / just inside / just outside / strictly inside the storage cell at the bounds of the stored ranges, in ascii / json / fits (u16, u32, u64), given as file (extension or -f) or stdin; intersect and included mode; with / without deprecated; sequential, --parallel 1..4 (set comparison), --print-coverage; `mocset union` (same selections, and ids) at depths 0..29 decoded from its FITS output. non-trivial = query with a non-empty expected answer; distinct = distinct case line".to_string();
   let scratch = std::env::var("VERIF_SCRATCH").unwrap_or_else(|_| "/tmp".to_string());
   let _ = dispatch!(Q::S, 64, |T, QQ| 0);
   let np = ctx.n(40, 1_500);
